@@ -110,6 +110,17 @@ CHECKS["C19"] = ("model_checking",
     "observed histories and 300 (quick) / 3000 longer random histories driven to quiescence are judged by TLC.",
     "Trusted: TLC, vlib/agentrt.py (the statements of Agent._run's loop body, executed by the harness instead of the agent thread), the recording wrappers of "
     "vlib/props/C19.py. One known finding (order lost when a computation is paused again while re-injected messages are still queued).", "DESIGN.md section 4 C19")
+
+CHECKS["C18"] = ("model_checking",
+    "TLC model checking of Messaging.tla (all interleavings of the steps of concurrent post_msg calls, registration, agent loop, shutdown), replay of the explored transitions on the real Agent/Messaging with real posting threads advanced one yield point at a time, TLC judging of the observed histories (Judge_C18)",
+    "Messaging.tla splits post_msg into its pre-emptible steps (shutdown check, discovery lookup, counter+put, subscription, deferral with second lookup) for two "
+    "posting threads running scripts of 2-3 posts (types 5/10/20, a registered and a late destination) and interleaves them with the registration of the late "
+    "computation, agent loop iterations, clean shutdown and loop exit; TLC checks handled-once, priority, per-sender FIFO, nothing lost, no stuck deferral, shutdown "
+    "drains. The transitions TLC explored (quick: 700 seeded covering paths per script set; thorough: all) are replayed on a real Agent with real threads parked at "
+    "wrapped callables (discovery lookup, clock read before the counter increment, subscription, lock acquisition), the real state compared after every step, and "
+    "the resulting histories judged by TLC.",
+    "Trusted: TLC, vlib/agentrt.py (loop body of Agent._run executed by the harness), vlib/stepthreads.py. The counter increment and the queue put are one model "
+    "step (the order is decided by the counter). Free-running real threads are not used: every schedule is one TLC explored.", "DESIGN.md section 4 C18")
 NOT_YET = "check not built yet in this snapshot (work in progress, see DESIGN.md section 9)"
 
 fix_commits = subprocess.run(["git", "-C", "/repo", "log", "--format=%h %s", "aeaae91..HEAD"], capture_output=True, text=True).stdout.splitlines()
